@@ -629,3 +629,33 @@ Proof.
   exists 0, 0, 1%nat, [ {| e_seq := -1; e_sent := 0; e_recv := 0 |}; {| e_seq := 0; e_sent := 0; e_recv := 0 |} ], [10; 20].
   repeat split; try (simpl; lia); try (vm_compute; discriminate).
 Qed.
+
+(* ---------------------------------------------------------------- which slice a coincident arrival selects *)
+Fixpoint sincr (l : list Q) : Prop :=
+  match l with a :: rest => match rest with b :: _ => a < b /\ sincr rest | [] => True end | [] => True end.
+Lemma sincr_lt a l : sincr (a :: l) -> forall i, (i < length l)%nat -> a < nth i l 0.
+Proof.
+  revert a. induction l as [|b l IH]; intros a H i Hi; [simpl in Hi; lia|].
+  destruct H as [Hab Hs]. destruct i as [|i]; [exact Hab|]. simpl.
+  apply Qlt_trans with b; [exact Hab|]. apply IH; [exact Hs|simpl in Hi; lia].
+Qed.
+Lemma sincr_tail a l : sincr (a :: l) -> sincr l.
+Proof. destruct l; [trivial|]. intros [_ H]. exact H. Qed.
+Lemma first_gt_at_knot t : forall l k, sincr l -> (k < length l)%nat -> nth k l 0 == t -> first_gt t l = S k.
+Proof.
+  induction l as [|a l IH]; intros k Hs Hk Ht; [simpl in Hk; lia|].
+  destruct k as [|k]; simpl in Ht |- *.
+  - rewrite (Qltb_ge t a) by lra. f_equal. destruct l as [|b l']; [reflexivity|].
+    destruct Hs as [Hab _]. simpl. rewrite (Qltb_lt t b) by lra. reflexivity.
+  - assert (Ha : a < nth k l 0) by (apply sincr_lt; [exact Hs|simpl in Hk; lia]).
+    rewrite (Qltb_ge t a) by lra. f_equal. apply IH; [apply (sincr_tail a); exact Hs|simpl in Hk; lia|exact Ht].
+Qed.
+(* the step starts exactly when entry k arrives (strictly increasing arrivals, at least `window` entries up to k):
+   entry k is the newest sliced entry *)
+Theorem coincidence_slice d t w es k : sincr (map (recv_d d) es) -> (k < length es)%nat ->
+  nth k (map (recv_d d) es) 0 == t -> (1 <= w)%nat -> (w <= S k)%nat ->
+  (start d t w es + (w - 1))%nat = k.
+Proof.
+  intros Hs Hk Ht Hw1 Hwk. unfold start. rewrite (first_gt_at_knot t _ k Hs) by (try rewrite map_length; assumption).
+  unfold dyn_start. destruct (Z.of_nat (S k) - Z.of_nat w <? 0)%Z eqn:E; [apply Z.ltb_lt in E; lia|]. lia.
+Qed.
